@@ -161,6 +161,8 @@ class SymCtx(_CtxBase):
             self.errors.append({"kind": "unknown_claim", "label": label, "case": self.case})
             raise StopCase()
         values = self.eng.input_values(model)
+        if hasattr(self, "_realise") and self._realise is not None:
+            values = self._realise(dict(values))
         rec = {"label": label, "case": self.case, "canary": self.canary,
                "inputs": {k: str(v) for k, v in values.items()},
                "inputs_float": {k: float(v) for k, v in values.items()},
@@ -379,10 +381,13 @@ def run_task(task):
         analytic = getattr(H, "CONCRETE_UF", "model") == "analytic"
 
         def replay(values, ufs):
+            if hasattr(H, "realise"):
+                values = H.realise(case, dict(values))
             return run_concrete(H, case, values, None if analytic else ufs, fopen, canary)
 
         def fn():
             ctx = SymCtx(eng, case, fopen, canary, replay)
+            ctx._realise = (lambda v: H.realise(case, v)) if hasattr(H, "realise") else None
             state["ctx"] = ctx
             try:
                 return H.run(ctx, case)
@@ -559,51 +564,87 @@ def main(harness, tier, seed, jobs=None):
            "reached": {}, "per_case": [], "canary": {cn["name"]: "survived" for cn in canaries},
            "tasks": 0, "witness_skipped_inexact": 0}
     ctxmp = mp.get_context("fork")
-    with cf.ProcessPoolExecutor(max_workers=jobs, mp_context=ctxmp) as ex:
-        pending = {ex.submit(run_task, t): t for t in tasks}
-        while pending:
-            done, _ = cf.wait(list(pending), return_when=cf.FIRST_COMPLETED)
-            for fut in done:
-                t = pending.pop(fut)
-                try:
-                    r = fut.result()
-                except Exception as e:   # noqa: BLE001
-                    r = {"errors": [{"kind": "worker_crash", "case": t["case"], "error": repr(e)}], "violations": [],
-                         "samples": [], "signatures": [], "reached": {}, "subtasks": [], "stats": {}, "complete": False,
-                         "wall_s": 0}
-                agg["tasks"] += 1
-                cn = t.get("canary")
-                for k, v in r.get("stats", {}).items():
-                    key = ("canary_" + k) if cn else k
-                    agg["stats"][key] = agg["stats"].get(key, 0) + v
-                if cn:
-                    if any(v.get("reproduced") for v in r["violations"]):
-                        agg["canary"][cn] = "killed"
-                    for e in r["errors"]:
-                        if e["kind"] not in ("budget_exhausted",):
-                            e["canary"] = cn
-                            agg["errors"].append(e)
-                    continue
-                agg["violations"].extend(r["violations"])
-                agg["errors"].extend(r["errors"])
-                agg["witness_skipped_inexact"] += r.get("witness_skipped_inexact", 0)
-                if len(agg["samples"]) < 6:
-                    agg["samples"].extend(r["samples"])
-                for s, triv in r["signatures"]:
-                    agg["sigs"].add(s)
-                    if not triv:
-                        agg["nontrivial"].add(s)
-                for k, v in r["reached"].items():
-                    agg["reached"][k] = agg["reached"].get(k, 0) + v
-                agg["per_case"].append({"case": {k: v for k, v in t["case"].items()},
-                                        "prefix_depth": len(t["prefix"]) if t.get("prefix") else 0,
-                                        "paths": r.get("stats", {}).get("paths", 0),
-                                        "wall_s": r.get("wall_s"), "complete": r.get("complete")})
-                for pre in r["subtasks"]:
-                    nt = dict(t)
-                    nt["prefix"] = pre
-                    nt["cut"] = None
-                    pending[ex.submit(run_task, nt)] = nt
+    hard_limit = opts["task_budget_s"] + opts.get("grace_s", 120)
+
+    def handle(t, r):
+        agg["tasks"] += 1
+        cn = t.get("canary")
+        for k, v in r.get("stats", {}).items():
+            key = ("canary_" + k) if cn else k
+            agg["stats"][key] = agg["stats"].get(key, 0) + v
+        if cn:
+            if any(v.get("reproduced") for v in r["violations"]):
+                agg["canary"][cn] = "killed"
+            for e in r["errors"]:
+                if e["kind"] not in ("budget_exhausted",):
+                    e["canary"] = cn
+                    agg["errors"].append(e)
+            return []
+        agg["violations"].extend(r["violations"])
+        agg["errors"].extend(r["errors"])
+        agg["witness_skipped_inexact"] += r.get("witness_skipped_inexact", 0)
+        if len(agg["samples"]) < 6:
+            agg["samples"].extend(r["samples"])
+        for s_, triv in r["signatures"]:
+            agg["sigs"].add(s_)
+            if not triv:
+                agg["nontrivial"].add(s_)
+        for k, v in r["reached"].items():
+            agg["reached"][k] = agg["reached"].get(k, 0) + v
+        agg["per_case"].append({"case": {k: v for k, v in t["case"].items()},
+                                "prefix_depth": len(t["prefix"]) if t.get("prefix") else 0,
+                                "paths": r.get("stats", {}).get("paths", 0),
+                                "wall_s": r.get("wall_s"), "complete": r.get("complete")})
+        new = []
+        for pre in r["subtasks"]:
+            nt = dict(t)
+            nt["prefix"] = pre
+            nt["cut"] = None
+            new.append(nt)
+        return new
+
+    def blank(kind, t, msg, secs):
+        return {"errors": [{"kind": kind, "case": t["case"], "error": msg}], "violations": [], "samples": [],
+                "signatures": [], "reached": {}, "subtasks": [], "stats": {}, "complete": False, "wall_s": round(secs, 1)}
+
+    def child(conn, task):
+        try:
+            conn.send(run_task(task))
+        except BaseException as e:   # noqa: BLE001
+            conn.send(blank("worker_crash", task, repr(e), 0))
+        finally:
+            conn.close()
+
+    # One process per work item: a solver call that ignores its timeout (observed with z3's nonlinear engine: 25 min
+    # on a 60 s limit) can then be killed without losing the other workers.  Killed items make the run inconclusive.
+    import multiprocessing.connection as mpc
+    queue = list(tasks)
+    running = {}     # conn -> (process, task, start time)
+    while queue or running:
+        while queue and len(running) < jobs:
+            t = queue.pop(0)
+            pc, cc = ctxmp.Pipe(duplex=False)
+            pr = ctxmp.Process(target=child, args=(cc, t), daemon=True)
+            pr.start()
+            cc.close()
+            running[pc] = (pr, t, time.time())
+        ready = mpc.wait(list(running), timeout=1.0)
+        for pc in ready:
+            pr, t, st = running.pop(pc)
+            try:
+                r = pc.recv()
+            except EOFError:
+                r = blank("worker_crash", t, "worker died (exit code %s)" % pr.exitcode, time.time() - st)
+            pc.close()
+            pr.join(timeout=5)
+            queue.extend(handle(t, r))
+        now = time.time()
+        for pc in [c for c, (pr, t, st) in running.items() if now - st > hard_limit]:
+            pr, t, st = running.pop(pc)
+            pr.kill()
+            pr.join(timeout=5)
+            pc.close()
+            handle(t, blank("worker_timeout", t, "work item exceeded %d s (solver call ignored its timeout)" % hard_limit, now - st))
     wall = time.time() - t0
 
     # ------------------------------------------------------------------ verdict
